@@ -84,10 +84,12 @@ def step (s : Sys) : Op → Sys × Out
 /-- Usage rules of the API (decidable; hypotheses of the theorems):
 one writer, whose commit / abort ends a mapped write; a reader maps only when unmapped.
 Mapping again without ending the previous write is within the rules (the earlier region is dropped: `channel_write_map`
-never looks at `mapped`); `source.c` does it after a failed `camera_get_frame`. -/
+never looks at `mapped`); `source.c` does it after a failed `camera_get_frame`. A `channel_write_unmap` with nothing mapped is
+within the rules as well: it commits `[head, mapped)`, which is empty after a commit or an abort (`source.c` aborts and then
+unmaps when the camera hands out an empty frame). -/
 def Op.wf (s : Sys) : Op → Bool
   | .wmap _ => true
-  | .wcommit => s.pending
+  | .wcommit => true
   | .wabort => s.pending
   | .accept _ => true
   | .join => s.rds.length < 8
